@@ -26,6 +26,25 @@ impl InputEvent {
         }
     }
 
+    /// For a start tag (or empty element): its name and the value of any `xmlns`
+    /// attribute, as written. Unlike building an `SvgElement` this can't fail on
+    /// what other attributes hold (e.g. a reference to an entity from the DOCTYPE).
+    pub fn start_name_and_xmlns(&self) -> Option<(String, Option<String>)> {
+        match &self.event {
+            Event::Start(e) | Event::Empty(e) => {
+                let name = String::from_utf8_lossy(e.name().as_ref()).into_owned();
+                let xmlns = e
+                    .attributes()
+                    .with_checks(false)
+                    .flatten()
+                    .find(|a| a.key.as_ref() == b"xmlns")
+                    .map(|a| String::from_utf8_lossy(&a.value).into_owned());
+                Some((name, xmlns))
+            }
+            _ => None,
+        }
+    }
+
     pub fn is_comment(&self) -> bool {
         matches!(&self.event, Event::Comment(_))
     }
